@@ -450,6 +450,26 @@ int overlapMain(void)
 		else if (!strcmp(f, "dwpU")) rc = beltDWPUnwrap(dest, src, len, hdr, hlen, tag, key, klen, iv);
 		else if (!strcmp(f, "cheU")) rc = beltCHEUnwrap(dest, src, len, hdr, hlen, tag, key, klen, iv);
 		else if (!strcmp(f, "keyExpand")) { klen = len; beltKeyExpand(dest, src, klen); outlen = 32; memcpy(ksnap, ssnap, klen); }
+		else if (!strcmp(f, "krp") || !strcmp(f, "krpN"))
+		{	/* src = the key, iv = level (12 octets), hdr = header (16) */
+			size_t m = f[3] ? len : 16;
+			rc = beltKRP(dest, m, src, len, iv, hdr);
+			jBegin(); jStr("op", "krp"); jStr("cls", "overlap"); jStr("f", f); jInt("doff", doff);
+			if (ipos > -100000) jInt("ipos", ipos); if (hpos > -100000) jInt("hpos", hpos);
+			jOct("key", ssnap, len); jOct("iv", isnap, 12); jOct("hdr", hsnap, 16); jOct("out", dest, m); jInt("rc", rc); jEnd();
+			free(arena); free(ssnap); continue;
+		}
+		else if (!strcmp(f, "fmtE") || !strcmp(f, "fmtD"))
+		{	/* u16 strings over the alphabet of size 65536 (every octet pair is a symbol) */
+			size_t cnt = len / 2, i; long long* a = (long long*)malloc(sizeof(long long) * (cnt + 1)); u16 t;
+			rc = f[3] == 'E' ? beltFMTEncr((u16*)dest, 65536, (const u16*)src, cnt, key, klen, iv) : beltFMTDecr((u16*)dest, 65536, (const u16*)src, cnt, key, klen, iv);
+			jBegin(); jStr("op", f); jStr("cls", "overlap"); jInt("doff", doff); if (kpos > -100000) jInt("kpos", kpos); if (ipos > -100000) jInt("ipos", ipos);
+			jInt("mod", 65536); jOct("key", ksnap, klen); jOct("iv", isnap, 16);
+			for (i = 0; i < cnt; ++i) { memcpy(&t, ssnap + 2 * i, 2); a[i] = t; } jIntArr("in", a, cnt);
+			for (i = 0; i < cnt; ++i) { memcpy(&t, dest + 2 * i, 2); a[i] = t; } jIntArr("out", a, cnt);
+			jInt("rc", rc); jEnd(); free(a);
+			free(arena); free(ssnap); continue;
+		}
 		else if (!strcmp(f, "memMove")) { memMove(dest, src, len); }
 		else if (!strcmp(f, "memJoin")) { memJoin(dest, src, len, hdr, hlen); outlen = len + hlen; }
 		else { fprintf(stderr, "unknown function %s\n", f); return 3; }
